@@ -28,8 +28,8 @@ PROPS = "Props/C18.v"
 EXTRACT = "extract/ExC18.v"
 OBLIGATION = "identify"
 THEOREMS = [
-    "C18_all_cfgs_complete", "C18_all_cfgs_count", "C18_agree_partial", "C18_agree_refuted",
-    "C18_deviations_exact", "C18_no_crash", "C18_verify_exit", "C18_print_designated",
+    "C18_all_cfgs_complete", "C18_all_cfgs_count", "C18_agree_refuted", "C18_deviations_exact", "C18_agree_partial",
+    "C18_agree_if_repaired", "C18_scope_covers_literal", "C18_no_crash", "C18_verify_exit", "C18_print_designated",
     "C18_agree_refuted_old_realpath", "C18_agree_refuted_old_rectype", "C18_agree_refuted_old_autolink",
     "C18_old_deviations_exact", "C18_strict_reading_differs", "C18_in_scope_satisfiable",
 ]
